@@ -6,6 +6,8 @@
   lock in which order; that a panic under a lock does not leave it poisoned for the other threads) follow the lock order
   entry < library < templates (`c16_programs_ordered`).  For every interleaving:
 
+  `c16_no_user_code_under_lock` : no destructor or method of user code is invoked while a global lock is held
+                            (from the current source) — the threads of the model take no other locks
   `c16_mutual_exclusion`  : a lock is never held twice
   `c16_no_deadlock`       : while some thread is unfinished, some thread can move
   `c16_all_complete`      : every run has exactly as many steps as there are instructions, and ends with every
@@ -21,6 +23,15 @@ theorem c16_lock_sites :
     Generated.lockSites = [("get_symbol_for", ["ENTRY_CACHE", "LIBRARY_CACHE"]), ("new_internal", ["ABI_CONNECTION_TEMPLATES"])]
     ∧ Generated.rawLockCalls = ["Guard::lock"]
     ∧ Generated.lockIgnoresPoison = true := by
+  decide
+
+/-- The model's threads take no lock of their own and re-enter nothing while they hold one of the three global
+    locks.  In the code this is so as long as no *user* code runs under a guard: what is sent to the other side's
+    entry point while the template guard is alive are the two interrogations (library code) and `CreateInstance`
+    (a constructor; for a shared library it runs against that library's own copy of the three locks).  A destructor
+    (`DropInstance`) or a method (`RegularCall`) under the guard could take any lock, the template lock included. -/
+theorem c16_no_user_code_under_lock :
+    Generated.protocolUnderTemplatesLock.all (fun p => ["InterrogateVersion", "InterrogateMethods", "CreateInstance"].contains p) = true := by
   decide
 
 theorem c16_programs_ordered (k : Nat) (ks : List Nat) :
